@@ -144,9 +144,10 @@ fn check_lpm_annotation(env: &Env, what: &str, item: Key, got: Option<(Raw, u64)
             format!("{what}: item {:?} reports {:?} as longest match in the {other_name} view, the entries of that view give {:?} (view entries: {:?})", item, g, w, other.iter().map(|x| x.0).collect::<Vec<_>>()),
         );
     }
-    if env.focus.has(18) {
+    if env.focus.has(18) || env.focus.has(8) {
         if let (Some((r, _)), Some((k, repr, _))) = (got, want) {
-            ensure!(r.bits == repr, "C18", format!("C18:{what}:lpm-repr"), "{what}: longest match {:?} reported with bits {:x}, stored representation {:x}", k, r.bits, repr);
+            let (prop, sig) = if env.focus.has(8) { ("C08", format!("C08:{what}:not-the-stored-prefix")) } else { ("C18", format!("C18:{what}:lpm-repr")) };
+            ensure!(r.bits == repr, prop, sig, "{what}: item {:?}: the reported longest match {:?} has bits {:x}, but the {other_name} view stores that prefix as {:x} (a direct longest-prefix query returns the stored one)", item, k, r.bits, repr);
         }
     }
     Ok(())
@@ -418,10 +419,11 @@ pub fn run_pair<P: TP>(pc: &PairCase, env: &mut Env) -> R {
             check_setops_ro(&va, &vb, &ea, &eb, env)?;
             // mutable twins on the same navigation programs (C13: same prefixes / presence pattern)
             if env.focus.has(13) || env.focus.has(5) || env.focus.has(6) || env.focus.has(7) {
-                let ro_union: Vec<(Key, bool, bool)> = va.union(vb.clone()).take(lim).map(|it| (key_of(it.prefix()), !matches!(it, UnionItem::Right { .. }), !matches!(it, UnionItem::Left { .. }))).collect();
-                let ro_inter: Vec<Key> = va.intersection(vb.clone()).take(lim).map(|x| key_of(x.0)).collect();
-                let ro_diff: Vec<Key> = va.difference(vb.clone()).take(lim).map(|x| key_of(x.prefix)).collect();
-                let ro_cdiff: Vec<Key> = va.covering_difference(vb.clone()).take(lim).map(|x| key_of(x.0)).collect();
+                // mutable twins must report bit-identical prefixes (it is the same stored entry)
+                let ro_union: Vec<(Raw, bool, bool)> = va.union(vb.clone()).take(lim).map(|it| (raw_of(it.prefix()), !matches!(it, UnionItem::Right { .. }), !matches!(it, UnionItem::Left { .. }))).collect();
+                let ro_inter: Vec<Raw> = va.intersection(vb.clone()).take(lim).map(|x| raw_of(x.0)).collect();
+                let ro_diff: Vec<Raw> = va.difference(vb.clone()).take(lim).map(|x| raw_of(x.prefix)).collect();
+                let ro_cdiff: Vec<Raw> = va.covering_difference(vb.clone()).take(lim).map(|x| raw_of(x.0)).collect();
                 let World { a, b } = &mut w;
                 let c13 = env.focus.has(13);
                 for kind in 0..4u8 {
@@ -435,18 +437,18 @@ pub fn run_pair<P: TP>(pc: &PairCase, env: &mut Env) -> R {
                     match kind {
                         0 => {
                             env.cur_op = "union_mut";
-                            let got: Vec<(Key, bool, bool)> = ma_.union_mut(mb_).take(lim).map(|(p, l, r)| (key_of(p), l.is_some(), r.is_some())).collect();
+                            let got: Vec<(Raw, bool, bool)> = ma_.union_mut(mb_).take(lim).map(|(p, l, r)| (raw_of(p), l.is_some(), r.is_some())).collect();
                             ensure!(got == ro_union, if c13 { "C13" } else { "C05" }, "mut-twin:union_mut vs union", "union_mut yields {:?}, union yields {:?}", got, ro_union);
                         }
                         1 => {
                             env.cur_op = "intersection_mut";
-                            let got: Vec<Key> = ma_.intersection_mut(mb_).take(lim).map(|(p, _, _)| key_of(p)).collect();
+                            let got: Vec<Raw> = ma_.intersection_mut(mb_).take(lim).map(|(p, _, _)| raw_of(p)).collect();
                             ensure!(got == ro_inter, if c13 { "C13" } else { "C06" }, "mut-twin:intersection_mut vs intersection", "intersection_mut yields {:?}, intersection yields {:?}", got, ro_inter);
                         }
                         2 => {
                             env.cur_op = "difference_mut";
                             let items: Vec<_> = ma_.difference_mut(&mb_).take(lim).collect();
-                            let got: Vec<Key> = items.iter().map(|d| key_of(d.prefix)).collect();
+                            let got: Vec<Raw> = items.iter().map(|d| raw_of(d.prefix)).collect();
                             ensure!(got == ro_diff, if c13 { "C13" } else { "C07" }, "mut-twin:difference_mut vs difference", "difference_mut yields {:?}, difference yields {:?}", got, ro_diff);
                             if env.focus.has(8) {
                                 for d in &items {
@@ -456,7 +458,7 @@ pub fn run_pair<P: TP>(pc: &PairCase, env: &mut Env) -> R {
                         }
                         _ => {
                             env.cur_op = "covering_difference_mut";
-                            let got: Vec<Key> = ma_.covering_difference_mut(&mb_).take(lim).map(|(p, _)| key_of(p)).collect();
+                            let got: Vec<Raw> = ma_.covering_difference_mut(&mb_).take(lim).map(|(p, _)| raw_of(p)).collect();
                             ensure!(got == ro_cdiff, if c13 { "C13" } else { "C07" }, "mut-twin:covering_difference_mut vs covering_difference", "covering_difference_mut yields {:?}, covering_difference yields {:?}", got, ro_cdiff);
                         }
                     }
